@@ -26,7 +26,7 @@ theorem process_stagnant (s : Distortion ℝ) (h : s.Stagnant) (xs : List (Frame
           (clamp s.mix.raw (0.0 : ℝ) (1.0 : ℝ)) f)) := by
   obtain ⟨hd, hm⟩ := h
   unfold process
-  simp only [Parameter.settle tw32 s.drive _ info hd, Parameter.settle tw32 s.mix _ info hm]
+  simp only [Parameter.settleA tw32 s.drive _ info hd, Parameter.settleA tw32 s.mix _ info hm]
   apply frameLoop_map
   intro t f
   have h1 := Parameter.settled_interp32 _ t (Parameter.settle_settled s.drive hd)
